@@ -53,8 +53,12 @@ def gen_case(r, family="A", force_mode=None):
         L.append(n * w)
     periodic = [r.random() < 0.7 for _ in range(3)]
     every = 0
-    if r.random() < 0.25 and not force_mode:
-        every = r.choice([1, 2, 3, 5])
+    if force_mode and force_mode.endswith("-every1"):
+        # violation search in counter mode at its boundary value: the list must be rebuilt in EVERY step
+        force_mode = force_mode[:-len("-every1")]
+        every = 1
+    elif r.random() < 0.35 and not force_mode:
+        every = r.choice([1, 1, 1, 2, 3, 5])      # every = 1 (rebuild in every step) is the boundary value of the counter test
     dt = F(1, r.choice([4, 8, 16]))
     nsteps = r.randrange(3, 9)
     npart = r.randrange(2, 9)
@@ -157,6 +161,15 @@ def premise_holds(step, meta):
     if meta["every"] == 0:
         return True
     ps = [p for p in step["particles"] if not p["frozen"]]
+    if meta.get("family") == "A":
+        # force-free runs: measured against the DOCUMENTED schedule (a rebuild at the first call and then at every `every`-th call;
+        # Lean: C02_every_mode), not against the code's own bookkeeping - a broken counter must not switch the oracle off.
+        # call index k = step + 1; m = calls since the last scheduled rebuild; displacement of a particle since then = |v| dt m
+        m = (step["step"] + 1) % meta["every"]
+        ms = sorted((sum(x * x for x in p["v"]) * meta["dt"] * meta["dt"] * m * m for p in ps), reverse=True)
+        if len(ms) < 2:
+            return True
+        return 2 * (ms[0] + ms[1]) < meta["skin"] * meta["skin"]
     ms = []
     for p in ps:
         d = [a - b for a, b in zip(p["tag"]["displacement"][2], p["tag"]["displacement__Old"][2])]
